@@ -155,11 +155,18 @@ func runC14(c *fw.Case) {
 	schedIdx := c.Index % c14Schedules
 	cr := rand.New(rand.NewSource(fw.CaseSeed(c.Seed, "C14-config", cfgIdx)))
 	a := newDistKeys()
-	sds := gen.SubDistributors(cr, distOpts(a, true))
+	// every fifth configuration works in whole numbers only (5% shares, inflows that are
+	// multiples of 20^5): blocks without inflow then really have nothing to distribute,
+	// and what failed earlier must still be made up in them
+	whole := cfgIdx%5 == 4
+	do := distOpts(a, true)
+	do.NiceShares = whole
+	sds := gen.SubDistributors(cr, do)
 	if sds == nil {
 		c.Describe("no-valid-config", cfgIdx)
 		return
 	}
+	a.wholeAmounts = whole
 	const faultBlocks, suffixBlocks = 6, 5
 	seedInflow := cr.Int63()
 	sched := c14MakeSchedule(schedIdx, c.R, faultBlocks)
@@ -168,6 +175,7 @@ func runC14(c *fw.Case) {
 		return
 	}
 	b := newDistKeys()
+	b.wholeAmounts = whole
 	if err := b.start(cloneSubs(sds), nil); err != nil {
 		c.Inconclusive("start twin: %v", err)
 		return
@@ -180,8 +188,14 @@ func runC14(c *fw.Case) {
 	cyclic := distCyclic(a.subs)
 	maxBlocks := faultBlocks + 40
 	drained := false
+	// inflows stop one block after the faults, together with them, or up to two blocks
+	// earlier: what failed must also be made up in blocks that bring nothing new
+	inflowUntil := faultBlocks + 1 - c.R.Intn(4)
+	if whole {
+		inflowUntil = 2 + c.R.Intn(3) // the faults outlast the inflows
+	}
 	for blk := 1; blk <= maxBlocks; blk++ {
-		if blk <= faultBlocks+1 {
+		if blk <= inflowUntil {
 			a.inflow(rA)
 			b.inflow(rB)
 		}
@@ -237,6 +251,22 @@ func runC14(c *fw.Case) {
 		c.Count("twin_comparison_skipped_not_drained", 1)
 	} else {
 		c.Count("twin_comparisons", 1)
+		// "made up later": whatever the fault-free twin has paid out by now (its books owe
+		// the destination less than one base unit), the run with faults must have paid too
+		owedB := map[string]sdk.DecCoins{}
+		for _, st := range b.n.App.CfedistributorKeeper.GetAllStates(b.n.Ctx()) {
+			owedB[stateKey(st)] = st.Remains
+		}
+		for _, st := range a.n.App.CfedistributorKeeper.GetAllStates(a.n.Ctx()) {
+			k := stateKey(st)
+			for _, dc := range st.Remains {
+				if dc.Amount.GTE(sdk.OneDec()) && owedB[k].AmountOf(dc.Denom).LT(sdk.OneDec()) {
+					c.ViolateD("C14/not-paid-out", map[string]interface{}{"config": a.describe(), "schedule": sched.label},
+						"%d fault-free blocks after the faults the books still owe %s %s%s (the fault-free twin owes %s): the failed transfer was not made up (schedule %s)", a.block-faultBlocks, k, dc.Amount, dc.Denom, owedB[k].AmountOf(dc.Denom), sched.label)
+					return
+				}
+			}
+		}
 		ha, hb := a.holdings(), b.holdings()
 		keys := map[string]bool{}
 		for k := range ha {
